@@ -138,8 +138,15 @@ def run_case(case):
         shrink = reserved - len(sig_value)
     else:
         shrink = 0
-    # NB: the name returned by need_final_name is not part of C01 (observed: with a caller-supplied placeholder the
-    # returned name keeps the placeholder bytes); no demand is made on it here.
+    # the name returned with need_final_name=True is the name on the wire (the applications key their pending-Interest table by it)
+    if kind == 'interest' and final_name is not None:
+        try:
+            wire_name = P.strict_interest(wire)['name']
+            if final_name != wire_name:
+                r.bad('C01/final-name-differs-from-wire-name' + ('/caller-supplied-placeholder' if case.get('digest_pos') is not None else ''),
+                      f'{[c.hex()[:20] for c in final_name]} != {[c.hex()[:20] for c in wire_name]}')
+        except T.Malformed:
+            pass
     # (3) the library's own parser returns the inputs
     try:
         if kind == 'data':
